@@ -23,6 +23,15 @@ fn read_progs(path: &str) -> Vec<Prog> {
         .map(|l| l.unwrap())
         .filter(|l| !l.trim().is_empty())
         .map(|l| serde_json::from_str::<Prog>(&l).unwrap_or_else(|e| panic!("bad program {l}: {e}")))
+        .map(|mut p| {
+            while p.tls_touch.len() < 2 {
+                p.tls_touch.push(-1);
+            }
+            while p.tls_yield.len() < 2 {
+                p.tls_yield.push(0);
+            }
+            p
+        })
         .collect()
 }
 
